@@ -224,8 +224,11 @@ fn check_row(rc: &RowCheck, case: &Case, sig: u64, r: &mut Rng, rep: &mut Report
             }
         }
     }
-    // ---- in-circuit evaluator on the same rows (a circuit that evaluates the gate's constraints)
-    let cfg = CircuitConfig::standard_recursion_config();
+    // ---- in-circuit evaluator on the same rows (a circuit that evaluates the gate's constraints),
+    // under the standard and under narrow / wide row configurations (gadget fast paths depend on the row width)
+    let (nw, nrw) = *r.pick(&[(135usize, 80usize), (135, 80), (135, 37), (135, 40), (135, 47), (143, 100), (234, 80)]);
+    let cfg = CircuitConfig { num_wires: nw, num_routed_wires: nrw, ..CircuitConfig::standard_recursion_config() };
+    rep.probe(&format!("c07.circuit_evaluator_routed_wires.{nrw}"));
     let built = guarded(|| {
         let mut b = CircuitBuilder::<F, D>::new(cfg);
         let wt = b.add_virtual_extension_targets(rc.wires.len());
@@ -238,7 +241,14 @@ fn check_row(rc: &RowCheck, case: &Case, sig: u64, r: &mut Rng, rep: &mut Report
     });
     let (data, wt, ct, ht, outs) = match built {
         Ok(x) => x,
-        Err(e) => return viol(rep, case, &id, "circuit_evaluator_panicked", None, e),
+        Err(e) => {
+            if nrw == 80 {
+                return viol(rep, case, &id, "circuit_evaluator_panicked", None, e);
+            }
+            // a non-standard row width may be too narrow for the evaluating circuit: a builder precondition
+            rep.skip("circuit evaluator: row configuration refused by the builder");
+            return;
+        }
     };
     rep.case(sig ^ hash_str("lockstep_circuit"), true);
     if outs.len() != nc {
